@@ -315,6 +315,33 @@ def run(tier="quick", replay=None):
                         g.path, ro, ra), fn=g.path)
     R.floor("R13.O6", "synthesised function definitions", n6, 2)
 
+    # ---------------- O7 source-location entries never replace function entries --------------------
+    btm = prog.fn("compiler::debug::build_table_mut")
+    overwriting = False
+    if btm is not None:
+        for g in prog.family("compiler::debug::build_table_mut"):
+            for bb, t in g.calls():
+                c = callee_of(t) or ""
+                if c.endswith("HashMap::<K, V, S, A>::insert") or c.endswith("HashMap::<K, V, S>::insert"):
+                    overwriting = True
+    n7 = 0
+    for g, bb, t in prog.call_sites(lambda c: c == "compiler::debug::build_symbol_table_mut"):
+        n7 += 1
+        gfl = Flow(g)
+        l = op_local(t["args"][0])
+        src = gfl.back([l]) if l is not None else set()
+        fresh = any((callee_of(t2) or "").endswith("HashMap::<K, V>::new") for x in gfl.back_pure([l]) for _, t2 in gfl.call_defs.get(x, [])) \
+            if l is not None else False
+        from_param = [x for x in (gfl.back_pure([l]) if l is not None else []) if 1 <= x <= g.argc]
+        ok = (not overwriting) or (fresh and not from_param)
+        R.check(ok, "R13.O7", "R13.O7|%s|locations-do-not-overwrite" % g.path, g.loc(bb),
+                "auto: source-location entries are built in a fresh map (and merged without overwriting)" if overwriting else
+                "auto: the table builder never overwrites existing entries",
+                "%s adds hash -> source-location entries directly into the table that holds the hash -> function-name entries, and "
+                "the builder overwrites entries for atoms: a function whose code is a single atom loses its name entry (its key "
+                "then maps to a source location while <hash>_arguments remains)" % g.path, fn=g.path)
+    R.floor("R13.O7", "build_symbol_table_mut call sites", n7, 1)
+
     # ---------------- O4 ------------------------------------------------------------------------
     cg = prog.fn("compiler::codegen::codegen")
     if cg is None:
